@@ -1,4 +1,7 @@
 import MgpuModel.C11
+import MgpuProofs.C11Copy
+import MgpuProofs.C11DmaStep
+import MgpuProofs.C11DmaTie
 /-! # C11 — property theorems (host/device copies move exactly the requested bytes)
 
 Only property statements live here; helper lemmas are in `MgpuProofs/C11*.lean`. -/
@@ -97,5 +100,307 @@ theorem overlap_gap (s1 e1 s2 e2 : Nat) (h1 : s1 < e1) (h2 : s2 < e2) :
     omega
   · rintro ⟨a, b⟩
     exact ⟨⟨by omega, by omega⟩, s1, Nat.le_refl _, h1, by omega, by omega⟩
+
+/-! ## Copies through the page table: tiling, round trip, frame, latest write -/
+
+/-- a 3-page table (4-byte pages at virtual 16, 20, 24) whose physical order is permuted
+    (108, 100, 104), used by the `example`s; a copy of 8 bytes at 18 crosses both page boundaries -/
+def demoPt : List Page := [⟨16, 108, 4⟩, ⟨20, 100, 4⟩, ⟨24, 104, 4⟩]
+
+example : PtInj demoPt := by decide
+
+/-- **Page-wise splitting is exact.** Whenever the loop of `processMemCopyH2D/D2HCommand`
+    succeeds (`left ≤ fuel` is how both callers start it), its pieces `(paddr, dataOffset, len)`
+    satisfy `Tiles` (see `MgpuProofs/C11Copy.lean`): data offsets are consecutive from `off`, virtual
+    addresses consecutive from `addr`, every length is positive, every piece lies inside the ONE page
+    that `findPage` returns for its first byte, with `paddr = page.paddr + (vaddr − page.vaddr)`, and
+    the lengths add up to `left`. The loop fails — the "page not found" panic — exactly when some
+    byte of the range has no page. No hypothesis on the page table. -/
+theorem pieces_tile (pt : List Page) (fuel addr off left : Nat) (hle : left ≤ fuel) :
+    (∀ ps, pieces pt fuel addr off left = some ps →
+        Tiles pt addr off ps ∧ (ps.map (·.2.2)).sum = left) ∧
+    (pieces pt fuel addr off left = none ↔ ∃ i, i < left ∧ findPage pt (addr + i) = none) :=
+  ⟨fun ps h => pieces_tiles fuel addr off left ps hle h, pieces_none_iff fuel addr off left hle⟩
+
+example : pieces demoPt 8 18 0 8 = some [(110, 0, 2), (100, 2, 4), (104, 6, 2)] ∧
+    pieces demoPt 8 18 0 11 = none ∧ findPage demoPt 28 = none := by decide
+
+/-- **A copy is defined exactly when its whole range is mapped** (otherwise the real code panics
+    with "page not found"). -/
+theorem h2d_defined_iff (pt : List Page) (m : Mem) (addr : Nat) (data : List Nat) :
+    (∃ m', h2d pt m addr data = some m') ↔ ∀ i, i < data.length → translate pt (addr + i) ≠ none := by
+  constructor
+  · rintro ⟨m', h⟩
+    obtain ⟨ps, hp, _⟩ := h2d_some h
+    exact pieces_mapped (Nat.le_refl _) hp
+  · intro hm
+    obtain ⟨ps, hp⟩ := pieces_some_of_mapped (off := 0) (Nat.le_refl data.length) hm
+    exact ⟨foldW data ps m, by rw [h2d_eq, hp]; rfl⟩
+
+/-- **Per-byte effect of a host-to-device copy**: byte `i` of the data ends up at the physical
+    address the page table assigns to `addr + i`. -/
+theorem h2d_bytes (pt : List Page) (hinj : PtInj pt) (m m' : Mem) (addr : Nat) (data : List Nat)
+    (h : h2d pt m addr data = some m') (i : Nat) (hi : i < data.length) :
+    translate pt (addr + i) = some (tr pt (addr + i)) ∧ m' (tr pt (addr + i)) = data.getD i 0 := by
+  obtain ⟨ps, hp, _⟩ := h2d_some h
+  have hm := pieces_mapped (Nat.le_refl _) hp i hi
+  refine ⟨translate_eq_tr hm, ?_⟩
+  rw [h2d_view hinj h _ hm, if_pos (by omega), Nat.add_sub_cancel_left]
+
+/-- **Round trip (headline).** For every injective page table (`PtInj`: pages pairwise disjoint
+    virtually and physically — C10's invariant), every memory, address and data whose range is
+    mapped: the host-to-device copy succeeds and copying the same range back returns exactly the
+    data. The table is arbitrary, so ranges spanning any number of pages — and therefore the
+    memories of several GPUs, in any physical order — are covered. -/
+theorem h2d_d2h_roundtrip (pt : List Page) (hinj : PtInj pt) (m : Mem) (addr : Nat) (data : List Nat)
+    (hmap : ∀ i, i < data.length → translate pt (addr + i) ≠ none) :
+    ∃ m', h2d pt m addr data = some m' ∧ d2h pt m' addr data.length = some data := by
+  obtain ⟨m', h⟩ := (h2d_defined_iff pt m addr data).2 hmap
+  refine ⟨m', h, ?_⟩
+  obtain ⟨ps, hp, _⟩ := h2d_some h
+  have : d2h pt m' addr data.length = some ((List.range data.length).map fun i => m' (tr pt (addr + i))) := by
+    unfold d2h; rw [hp]; simp only [Option.map_some]
+    rw [read_spec hinj m' data.length addr 0 data.length ps (Nat.le_refl _) hp]
+  rw [this]; congr 1
+  rw [← map_getD_range data]
+  simp only [List.length_map, List.length_range]
+  apply List.map_congr_left
+  intro i hi
+  exact (h2d_bytes pt hinj m m' addr data h i (List.mem_range.1 hi)).2
+
+example : (h2d demoPt (fun a => a % 7) 18 [1, 2, 3, 4, 5, 6, 7, 8]).bind
+    (fun m' => d2h demoPt m' 18 8) = some [1, 2, 3, 4, 5, 6, 7, 8] := by decide
+
+/-- **Frame.** A host-to-device copy changes no physical byte other than the images of the bytes
+    of its range — in particular nothing in other pages, other buffers or other GPUs' memories.
+    (The device-to-host direction cannot change memory at all: `d2h` returns only the bytes read,
+    `d2h : List Page → Mem → Nat → Nat → Option (List Nat)`.) -/
+theorem h2d_frame (pt : List Page) (hinj : PtInj pt) (m m' : Mem) (addr : Nat) (data : List Nat)
+    (h : h2d pt m addr data = some m') (q : Nat)
+    (hq : ∀ i, i < data.length → translate pt (addr + i) ≠ some q) : m' q = m q := by
+  obtain ⟨ps, hp, rfl⟩ := h2d_some h
+  exact (foldW_spec hinj data data.length addr 0 data.length ps m (Nat.le_refl _) (by omega) hp).2 q hq
+
+example : ((h2d demoPt (fun a => a % 7) 18 [1, 2, 3, 4, 5, 6, 7, 8]).map
+    fun m' => (List.range 14).map fun k => m' (99 + k)) =
+    some [1, 3, 4, 5, 6, 7, 8, 1, 2, 3, 4, 1, 2, 0] := by decide
+
+/-- **A device-to-host copy observes the latest write, byte by byte.** After two host-to-device
+    copies to arbitrary (possibly overlapping, possibly differently aligned) ranges, reading any
+    mapped range returns for each byte the value of the newer copy where it covers the byte,
+    else of the older copy where that covers it, else the original memory content. -/
+theorem d2h_reads_latest (pt : List Page) (hinj : PtInj pt) (m m1 m2 : Mem)
+    (a1 : Nat) (d1 : List Nat) (a2 : Nat) (d2 : List Nat) (a len : Nat) (out : List Nat)
+    (h1 : h2d pt m a1 d1 = some m1) (h2 : h2d pt m1 a2 d2 = some m2)
+    (h3 : d2h pt m2 a len = some out) :
+    out.length = len ∧ ∀ i, i < len → out.getD i 0 =
+      if a2 ≤ a + i ∧ a + i < a2 + d2.length then d2.getD (a + i - a2) 0
+      else if a1 ≤ a + i ∧ a + i < a1 + d1.length then d1.getD (a + i - a1) 0
+      else m (tr pt (a + i)) := by
+  have hout := d2h_spec hinj h3
+  have hmapped : ∀ i, i < len → translate pt (a + i) ≠ none := by
+    unfold d2h at h3
+    cases hp : pieces pt len a 0 len with
+    | none => simp [hp] at h3
+    | some ps => exact pieces_mapped (Nat.le_refl _) hp
+  subst hout
+  refine ⟨by simp, fun i hi => ?_⟩
+  rw [List.getD_eq_getElem?_getD, List.getElem?_map, List.getElem?_range hi]
+  simp only [Option.map_some, Option.getD_some]
+  rw [h2d_view hinj h2 _ (hmapped i hi)]
+  split
+  · rfl
+  · exact h2d_view hinj h1 _ (hmapped i hi)
+
+example : ((h2d demoPt (fun a => a % 7) 16 [1, 2, 3, 4, 5, 6]).bind fun m1 =>
+    (h2d demoPt m1 19 [11, 12, 13, 14, 15, 16, 17]).bind fun m2 => d2h demoPt m2 17 10) =
+    some [2, 3, 11, 12, 13, 14, 15, 16, 17, 1] := by decide
+
+/-! ## The DMA engine under every environment
+
+`reach log2 maxReq memCap ops` is the state of the tick-exact `Dma` model (`DMAEngine.Tick`) and of
+its environment after an **arbitrary** list `ops : List EnvOp` of environment moves — a copy request
+arriving at ToCP, a tick, the memory side taking `k` requests from ToMem's outgoing buffer, a
+response for the `j`-th outstanding request (any order), the CP side draining completions, and
+`inject id` (an arbitrary, possibly bogus or duplicated, response id) — for an **arbitrary**
+configuration. `Env.step` performs the same state updates as `dmaOp` of the executable driver
+(plus the ghost histories `seen`, `drained`). -/
+
+def reach (log2 maxReq memCap : Nat) (ops : List EnvOp) : Env := (Env.init log2 maxReq memCap).run ops
+
+/-- two concurrent copies (H2D of 7 bytes at 6 → 3 sub-requests with 4-byte units, D2H of 3 bytes
+    at 17 → 1 sub-request), answered out of order: the younger copy finishes first -/
+def demoOps : List EnvOp :=
+  [.copy .h2d 6 7, .copy .d2h 17 3, .tick, .tick, .tick, .tick, .tick, .take 4,
+   .respond 3, .respond 2, .tick, .tick, .respond 0, .tick, .respond 0, .tick, .tick, .tick, .drain]
+
+/-- **The bookkeeping invariant** (`DInv`, 12 clauses, `MgpuProofs/C11DmaInv.lean`) holds after
+    every op sequence, bogus responses included. -/
+theorem dma_inv (log2 maxReq memCap : Nat) (ops : List EnvOp) : (reach log2 maxReq memCap ops).Inv :=
+  Env.run_inv (Env.init_inv log2 maxReq memCap) ops
+
+/-- **Each copy completes exactly once, and only after all its memory transactions.**
+    After every op sequence: (1) no copy id occurs twice in `completed`; (2) the completion
+    responses actually emitted towards the CP (already drained, in the ToCP port, or waiting in
+    `toSendToCP`) are exactly `completed`, in order — so no response is duplicated or lost;
+    (3) every completed id belongs to a copy request that was received, and that request is no
+    longer queued or in processing; (4) no memory transaction of a completed copy is still
+    pending (`owner` = ghost copy id of a sub-request). -/
+theorem dma_exactly_once (log2 maxReq memCap : Nat) (ops : List EnvOp) :
+    let e := reach log2 maxReq memCap ops
+    e.s.completed.Nodup ∧
+    e.s.completed = e.drained ++ e.s.cpOut ++ e.s.toCP ∧
+    (∀ cid ∈ e.s.completed, (∃ r ∈ e.cps, r.id = cid) ∧ cid ∉ procIds e.s ∧ cid ∉ e.s.cpIn.map (·.id)) ∧
+    (∀ q ∈ e.s.pending, q.owner ∉ e.s.completed) := by
+  intro e
+  have h := dma_inv log2 maxReq memCap ops
+  have hnd := h.d.ids_nodup
+  rw [List.nodup_append, List.nodup_append] at hnd
+  obtain ⟨⟨h1, h2, h3⟩, h4, h5⟩ := hnd
+  refine ⟨h1, h.d.emitted, ?_, ?_⟩
+  · intro cid hc
+    refine ⟨?_, fun hp => h3 cid hc cid hp rfl, fun hp => h5 cid (List.mem_append_left _ hc) cid hp rfl⟩
+    have hlt := h.d.ids_lt cid (List.mem_append_left _ (List.mem_append_left _ hc))
+    have : cid ∈ e.cps.map (·.id) := by rw [h.cps_ids]; exact List.mem_range.2 hlt
+    obtain ⟨r, hr, e⟩ := List.mem_map.1 this
+    exact ⟨r, hr, e⟩
+  · intro q hq hc
+    obtain ⟨c, hcm, _, hown⟩ := h.d.pend_owner q hq
+    exact h3 _ hc _ (List.mem_map_of_mem (f := fun c => c.sup.id) hcm) hown.symm
+
+example : (reach 2 2 4 demoOps).s.completed = [1, 0] ∧ (reach 2 2 4 demoOps).drained = [1, 0] ∧
+    (reach 2 2 4 demoOps).cps.map (·.id) = [0, 1] ∧ (reach 2 2 4 demoOps).s.pending.length = 0 := by
+  decide +kernel
+
+/-- **A copy completes in the tick that parses its last outstanding response.** From any reachable
+    state, one more op leaves `completed` unchanged unless it is a tick, and a tick appends at most
+    one copy id; when it does, the response at the head of ToMem's incoming buffer answers a
+    sub-request of that copy, all its other sub-requests had been answered before, and after the
+    tick none of its sub-requests is pending — for any response order and any number of
+    concurrent copies. -/
+theorem dma_completes_after_last_response (log2 maxReq memCap : Nat) (ops : List EnvOp) (op : EnvOp) :
+    let e := reach log2 maxReq memCap ops
+    let e' := e.step op
+    e'.s.completed = e.s.completed ∨
+    (op = .tick ∧ ∃ c ∈ e.s.processing, ∃ id rest, e.s.memIn = id :: rest ∧ id ∈ c.subs ∧
+      id ∈ pendIds e.s ∧ e'.s.completed = e.s.completed ++ [c.sup.id] ∧
+      (∀ x ∈ c.subs, x ≠ id → x ∉ pendIds e.s) ∧ (∀ x ∈ c.subs, x ∉ pendIds e'.s)) := by
+  intro e e'
+  have h := dma_inv log2 maxReq memCap ops
+  cases op with
+  | tick =>
+    rcases tick_completed h.d with hh | hh
+    · exact .inl hh
+    · exact .inr ⟨rfl, hh⟩
+  | respond j =>
+    left
+    show (e.step (.respond j)).s.completed = e.s.completed
+    unfold Env.step; simp only
+    split
+    · rfl
+    · split <;> rfl
+  | copy k a l => exact .inl rfl
+  | take k => exact .inl rfl
+  | drain => exact .inl rfl
+  | inject id => exact .inl rfl
+
+example : (reach 2 2 4 (demoOps.take 15)).s.memIn = [1] ∧
+    (reach 2 2 4 (demoOps.take 15)).s.processing.map (fun c => (c.sup.id, c.subs, c.count)) = [(0, [0, 1, 2], 1)] ∧
+    (reach 2 2 4 (demoOps.take 15)).s.completed = [1] ∧
+    (reach 2 2 4 (demoOps.take 16)).s.completed = [1, 0] := by decide +kernel
+
+/-- **Cache-line-wise splitting in the engine is exact.** Whenever `parseFromCP` accepts the copy
+    request `r` at the head of ToCP's incoming buffer, the memory transactions it creates (appended
+    to `toSendToMem` and to `pendingReqs`, their ids recorded in the new collection with
+    `count` = their number) tile `[r.addr, r.addr + r.len)`: consecutive from `r.addr`, each
+    non-empty and inside one `2^log2` unit, lengths adding up to `r.len`; all are writes for an
+    H2D copy and reads for a D2H copy and carry `r.id` as ghost owner. -/
+theorem dma_subrequests_tile (s : Dma) (r : CpReq) (rest : List CpReq) (hcp : s.cpIn = r :: rest)
+    (hcap : s.processing.length < s.maxReq) :
+    ∃ reqs : List MemReq,
+      s.parseFromCP.1.toMem = s.toMem ++ reqs ∧ s.parseFromCP.1.pending = s.pending ++ reqs ∧
+      s.parseFromCP.1.processing =
+        s.processing ++ [{ sup := r, subs := reqs.map (·.id), count := reqs.length }] ∧
+      chain r.addr (reqs.map fun q => (q.addr, q.len)) ∧
+      (reqs.map (·.len)).sum = r.len ∧
+      (∀ q ∈ reqs, 0 < q.len ∧ q.addr / 2 ^ s.log2 = (q.addr + q.len - 1) / 2 ^ s.log2 ∧
+        q.write = (r.kind == Kind.h2d) ∧ q.owner = r.id) ∧
+      (reqs.map (·.id)).Nodup := by
+  refine ⟨subReqs s r, ?_⟩
+  rcases parseFromCP_cases s with ⟨_, h | h⟩ | ⟨r', rest', hcp', _, e⟩
+  · omega
+  · rw [h] at hcp; cases hcp
+  · rw [hcp] at hcp'; cases hcp'
+    rw [e]
+    have hr := subReqs_ranges s r
+    refine ⟨rfl, rfl, rfl, ?_, ?_, ?_, ?_⟩
+    · rw [hr]; exact split_chain _ _ _ _
+    · have := split_sum (2 ^ s.log2) (Nat.pow_pos (by decide)) r.addr r.len
+      rw [← hr, List.map_map] at this; exact this
+    · intro q hq
+      have hm : (q.addr, q.len) ∈ (subReqs s r).map (fun q => (q.addr, q.len)) := List.mem_map_of_mem hq
+      rw [hr] at hm
+      have := split_in_unit _ _ _ _ _ hm
+      have hq' := subReqs_mem s r q hq
+      exact ⟨this.1, this.2, hq'.2.1, hq'.1⟩
+    · rw [subReqs_ids]; exact List.nodup_range' ..
+
+example : (reach 2 2 4 demoOps).seen.map (fun q => (q.owner, q.addr, q.len, q.write)) =
+    [(0, 6, 2, true), (0, 8, 4, true), (0, 12, 1, true), (1, 17, 3, false)] := by decide +kernel
+
+/-- **No engine panic under a well-behaved memory side.** As long as the environment answers only
+    requests it has taken from the ToMem port and each of them once (every move except `inject`),
+    the engine never faults — neither "not found" (`removeReqFromPendingReqList`) nor "couldn't
+    find requestcollection" — and every transaction in flight (waiting to be sent, in the port,
+    at the memory, or answered but not yet parsed) is pending exactly once. -/
+theorem dma_no_fault (log2 maxReq memCap : Nat) (ops : List EnvOp)
+    (hops : ∀ op ∈ ops, op.isInject = false) :
+    let e := reach log2 maxReq memCap ops
+    e.s.fault = none ∧ (fl e.s e.outstanding).Nodup ∧ ∀ x ∈ fl e.s e.outstanding, x ∈ pendIds e.s := by
+  intro e
+  have h := Env.run_flow (Env.init_flow log2 maxReq memCap) (Env.init_inv log2 maxReq memCap) ops hops
+  exact ⟨h.nofault, h.f.nodup, h.f.sub⟩
+
+example : (reach 2 2 4 demoOps).s.fault = none ∧
+    (reach 2 2 4 (demoOps.take 10 ++ [.inject 3, .tick, .tick, .tick])).s.fault = some "not_found" := by
+  decide +kernel
+
+/-- **Capacities are respected** after every op sequence: at most `maxRequestCount` copies are in
+    processing and ToMem's outgoing buffer never exceeds its capacity. -/
+theorem dma_capacity (log2 maxReq memCap : Nat) (ops : List EnvOp) :
+    let e := reach log2 maxReq memCap ops
+    e.s.processing.length ≤ e.s.maxReq ∧ e.s.memOut.length ≤ e.s.memCap :=
+  ⟨(dma_inv log2 maxReq memCap ops).d.cap_proc, (dma_inv log2 maxReq memCap ops).d.cap_mem⟩
+
+example : (reach 2 1 2 (demoOps.take 7)).s.processing.length = 1 ∧
+    (reach 2 1 2 (demoOps.take 7)).s.memOut.length = 2 ∧ (reach 2 1 2 (demoOps.take 7)).s.toMem.length = 1 ∧
+    (reach 2 1 2 (demoOps.take 7)).s.cpIn.length = 1 := by decide +kernel
+
+/-- **The environment wrapper is the executable driver.** For every driver state `d` and every
+    scenario op the harness can issue (`t`, `c`, `m k`, `r j`, `h a l`, `d a l`), the engine and
+    environment state after `dmaOp` — the function the correspondence check runs against the real
+    `DMAEngine` — equals the state after the matching `Env.step`; so the theorems above are about
+    the very transitions that are compared with the real code on every run. -/
+theorem dma_env_is_driver (d : DrvSt) :
+    (dmaOp d ["t"]).env.core = (d.env.step .tick).core ∧
+    (dmaOp d ["c"]).env.core = (d.env.step .drain).core ∧
+    (∀ k : String, (dmaOp d ["m", k]).env.core = (d.env.step (.take (k.toNat?.getD 0))).core) ∧
+    (∀ j : String, (dmaOp d ["r", j]).env.core = (d.env.step (.respond (j.toNat?.getD 0))).core) ∧
+    (∀ (a l : String) (x y : Nat), a.toNat? = some x → l.toNat? = some y →
+      (dmaOp d ["h", a, l]).env.core = (d.env.step (.copy .h2d x y)).core ∧
+      (dmaOp d ["d", a, l]).env.core = (d.env.step (.copy .d2h x y)).core) :=
+  ⟨tie_tick d, tie_drain d, tie_take d, tie_respond d,
+   fun a l x y ha hl => ⟨tie_copy_h d a l x y ha hl, tie_copy_d d a l x y ha hl⟩⟩
+
+/-- observable summary of an environment state, used by the example below -/
+def envSummary (e : Env) : List Nat × List Nat × List Nat × List Nat × Nat × Nat × Nat :=
+  (e.s.completed, e.s.cpOut, pendIds e.s, e.cps.map (·.id), e.s.nextId, e.nextCp, e.outstanding.length)
+
+/-- a driver state with one queued H2D copy of 7 bytes at 6 -/
+def demoDrv : DrvSt :=
+  { s := { log2 := 2, maxReq := 2, memCap := 4, cpIn := [⟨0, .h2d, 6, 7⟩] }, cps := [⟨0, .h2d, 6, 7⟩], nextCp := 1 }
+
+example : envSummary (dmaOp demoDrv ["t"]).env = ([], [], [0, 1, 2], [0], 3, 1, 0) := by decide +kernel
+example : envSummary (demoDrv.env.step .tick) = ([], [], [0, 1, 2], [0], 3, 1, 0) := by decide +kernel
 
 end C11
